@@ -113,13 +113,14 @@ Definition parse_segwit (s : bytes) : result (tx * bytes) :=
     Ok ({| t_version := from_le v; t_ins := ins'; t_outs := outs; t_locktime := from_le lt;
            t_segwit := true |}, s7).
 
-(* Tx.parse: sniff byte 5; s.seek(-5, 1) raises when fewer than 5 bytes were available *)
+(* Tx.parse: sniff byte 5 (s.read(4); s.read(1)), then s.seek(-5, 1).  On a BytesIO a
+   relative seek before the start is clamped to 0 (it does not raise), so a stream shorter
+   than 5 bytes goes to parse_legacy, which fails in read_varint (lemma tx_parse_short). *)
 Definition tx_parse (s : bytes) : result (tx * bytes) :=
-  if (length s <? 5)%nat then Err
-  else match nth_error s 4 with
-       | Some 0 => parse_segwit s
-       | _ => parse_legacy s
-       end.
+  match nth_error s 4 with
+  | Some 0 => parse_segwit s
+  | _ => parse_legacy s
+  end.
 
 Definition serialize_legacy (t : tx) : result bytes :=
   v <- int_to_le (t_version t) 4 ;;
